@@ -316,7 +316,7 @@ SEAM_OPS = {"net.solve", "net.port", "net.matrix", "net.ssm", "cir.dc", "cir.cx"
             "ld.serialize", "ld.deserialize", "ld.dump", "ld.load"}
 
 
-def _interleave(r, scripts, cfg, seam_ops=SEAM_OPS):
+def _interleave(r, scripts, cfg, seam_ops=SEAM_OPS, nest_ok=None):
     queues = [list(s) for s in scripts]
     steps = []
     while any(queues):
@@ -330,14 +330,14 @@ def _interleave(r, scripts, cfg, seam_ops=SEAM_OPS):
             if others and r.random() < cfg["nest_p"]:
                 nested = []
                 for _ in range(r.randint(1, 2)):
-                    others = [i for i in others if queues[i]]
+                    others = [i for i in others if queues[i] and (nest_ok is None or nest_ok(s, queues[i][0]))]
                     if not others:
                         break
                     o = r.choice(others)
                     n = queues[o].pop(0)
                     # depth 2: a nested step with a seam may host one more step
                     if n["op"] in seam_ops and r.random() < 0.3:
-                        deeper = [i for i in others if i != o and queues[i]]
+                        deeper = [i for i in others if i != o and queues[i] and (nest_ok is None or nest_ok(n, queues[i][0]))]
                         if deeper:
                             n["nested"] = [{"at": 0, "steps": [queues[r.choice(deeper)].pop(0)]}]
                     nested.append(n)
